@@ -75,3 +75,7 @@ macro_rules! derive_arith {
 }
 
 pub(crate) use derive_arith;
+
+#[cfg(kani)]
+#[path = "/verif/kani/arrow-buffer/arith.rs"]
+mod verif_kani;
